@@ -2,7 +2,7 @@
 # tools/r10_meta.py : writes seeded/<ID>S/meta.json for the tenth round from the confirmation logs (.logs/confirm_r10_<ID>.out)
 import json,os,re,sys
 T={
-'C01':("Collapse looks an identity up before it normalises the blank key, so \"\" and \"0\" stay two entries of one batch","one batch holding the same identity once with key \"\" and once with key \"0\", the older one later in the batch","store:older-point-wins"),
+'C01':("Collapse no longer maps the blank key to \"0\" when it indexes a batch","one batch holding the same identity once with key \"\" and once with key \"0\", the older one later in the batch","store:older-point-wins"),
 'C02':("syncNode keeps using the node-point bookkeeping map for the edge-point comparison","an edge point that exists upstream only, at an index the node-point pass has already marked","sync:not-converged:edge-point-missing-downstream"),
 'C05':("points.Collapse() moved above checkPointValues in nodePoints and edgePoints","a batch in which a NaN point is shadowed by a newer valid point of the same identity","refused-write:accepted:nan-shadowed"),
 'C06':("the two upstream walks merged into one helper whose recursive call passes includeDeleted=false","edge-point write on a node with a tombstoned edge two or more levels above it","rebroadcast:ancestor-missed:edge"),
